@@ -259,8 +259,15 @@ def orbit_triples(ck, rng, tier, seed):
     from ..core import PY, VERIF
     r = run_tlc("OrbitTriple", "OrbitTriple.cfg", coverage=True, timeout=300)
     ck.add_tlc(r, "OrbitTriple complete graph")
-    st = lambda s: {"moon": s["moon"]["a"], "stellar": s["stellar"]["a"]}
-    walks = c13.graph_walks(ck, "OrbitTriple", "OrbitTriple.cfg", st, rng, 10 ** 9, "OrbitTriple")
+    ra = run_tlc("OrbitTriple", "OrbitTriple_asfound_mass.cfg", timeout=300, expect_violation=True)
+    if ra.ok or ra.violated != "KeplerCurrentAlways":
+        raise MachineryError("OrbitTriple_asfound_mass: expected KeplerCurrentAlways to be violated, got %s" % ra.violated)
+    st = lambda s: {"moon": s["moon"]["a"], "stellar": s["stellar"]["a"], "moon_m": list(s["moon"]["m"]), "stellar_m": list(s["stellar"]["m"]),
+                    "moon_current": list(s["moon"]["m"]) == [s["mm"], s["hm"]], "stellar_current": list(s["stellar"]["m"]) == [s["hm"]]}
+    # 288 states / 17.8k transitions with the mass ids: the quick tier replays a uniform sample of the transitions, the thorough tier all
+    walks = c13.graph_walks(ck, "OrbitTriple", "OrbitTriple.cfg", st, rng, 1500 if tier == "quick" else 10 ** 9, "OrbitTriple")
+    if not any(stp[0] in ("MoonMass", "HostMass") for w in walks for stp in w):
+        raise MachineryError("vacuity: no mass change in the OrbitTriple walks")
     wd = scratch("c17orb")
     jobs = []
     for form in ("scalar", "array", "inplace"):
@@ -270,6 +277,7 @@ def orbit_triples(ck, rng, tier, seed):
         jobs.append((form, p, subprocess.Popen([PY, "-m", "harness.orbit_driver", p], cwd=VERIF, env=env, stdin=subprocess.DEVNULL,
                                                stdout=open(p + ".log", "w"), stderr=subprocess.STDOUT)))
     total = 0
+    stale_seen = []
     for form, p, pr in jobs:
         pr.wait(timeout=1800)
         if pr.returncode != 0 or not os.path.exists(p + ".out.json"):
@@ -286,6 +294,12 @@ def orbit_triples(ck, rng, tier, seed):
                               "via": (b["params"][-1] if b["act"] == "StellarDistance" else None)},
                              "form=%s after %d calls, %s%s: %s orbit: %s" % (form, b["k"], b["act"], b["params"], m["orbit"], m["detail"]),
                              {"form": form, "behaviour": beh[:b["k"] + 1], "mismatch": b["mismatch"]})
+            if rb.get("stale") and not stale_seen:
+                # "always ... for the current masses": right after world.set_geometry(radius, mass) the stored triple is still the old one
+                stale_seen.append(rb["stale"][0])
+                ck.violation({"clause": "orbit_kepler", "what": "stale_after_mass_change", "action": "set_geometry"},
+                             "after a mass change (world.set_geometry) and before the next orbit update the %s triple is Keplerian for the old masses only: n^2 a^3/(G(M+m)) - 1 = %.3g" % (
+                                 rb["stale"][0]["orbit"], rb["stale"][0]["r_current"]), {"form": form, "stale": rb["stale"][:3]})
     ck.notes["orbit_triple_steps"] = total
     ck.cov["traces_validated_against_impl"] += 3 * len(walks)
 
